@@ -16,37 +16,9 @@
 (* nothing, so trace validation composes it in front of a Retrieve that    *)
 (* answered "nothing" instead of rejecting (counted and reported).         *)
 (***************************************************************************)
-EXTENDS Integers, Sequences, FiniteSets, TLC, Json
+EXTENDS TTCore, FiniteSets, TLC, Json
 
-CONSTANTS Keys, Depths, Data, MaxOps, EmitOn
-
-None == [depth |-> -1, data |-> "none"]
-Entry(d, x) == [depth |-> d, data |-> x]
-
-VARIABLES tt,    \* Keys -> entry or None
-          log,   \* history: sequence of [key, depth, data] stores
-          ret    \* result of the last lookup: [key, val]
-vars == <<tt, log, ret>>
-
-Init == /\ tt = [k \in Keys |-> None]
-        /\ log = <<>>
-        /\ ret = [key |-> "none", val |-> None]
-
-\* src/transposition.rs:15  store(): insert when absent or when the old depth <= new depth
-StoreRule(t, k, d, x) == IF t[k] = None \/ t[k].depth <= d THEN [t EXCEPT ![k] = Entry(d, x)] ELSE t
-
-Store(k, d, x) == /\ tt' = StoreRule(tt, k, d, x)
-                  /\ log' = Append(log, [key |-> k, depth |-> d, data |-> x])
-                  /\ UNCHANGED ret
-
-\* src/transposition.rs:33  retrieve(): the entry of exactly that key, or nothing
-Retrieve(k) == /\ ret' = [key |-> k, val |-> tt[k]]
-               /\ UNCHANGED <<tt, log>>
-
-\* deviation (not taken by the pinned code): an entry is dropped
-Evict(k) == /\ tt[k] # None
-            /\ tt' = [tt EXCEPT ![k] = None]
-            /\ UNCHANGED <<log, ret>>
+CONSTANTS MaxOps, EmitOn
 
 StoreStep == Len(log) < MaxOps /\ \E k \in Keys, d \in Depths, x \in Data : Store(k, d, x)
 RetrieveStep == Len(log) < MaxOps /\ \E k \in Keys : Retrieve(k)
